@@ -695,11 +695,13 @@ def u_to_euler(U_matrix):
     if CHECKS.activated: checks._check_rotation_matrix(U)
 
     tol = 1e-8
-    PHI = n.arccos(n.clip(U[2, 2], -1, 1))
-    if n.abs(PHI)<tol:
+    # sin(PHI) from the third column: unlike arccos(U[2, 2]) it does not lose half the digits near PHI = 0 and pi
+    sPHI = n.sqrt(U[0, 2]**2 + U[1, 2]**2)
+    PHI = n.arctan2(sPHI, U[2, 2])
+    if sPHI<tol and U[2, 2]>0:
         phi1 = _arctan2(-U[0, 1], U[0, 0])
         phi2 = 0
-    elif n.abs(PHI-n.pi)<tol:
+    elif sPHI<tol:
         phi1 = _arctan2(U[0, 1], U[0, 0])
         phi2 = 0
     else:
